@@ -48,6 +48,9 @@ type Parser struct {
 	// escTimeout is a timeout for interpretting an Esc keypress vs an
 	// escape sequence
 	escTimeout *time.Timer
+	// escPending is true while the last rune read is an ESC that nothing
+	// has followed yet: only then may the timeout report an Escape key
+	escPending bool
 	mu         sync.Mutex
 
 	oscData []rune
@@ -119,6 +122,7 @@ outer:
 		default:
 			r := p.readRune()
 			p.mu.Lock()
+			p.escPending = false
 			p.state = anywhere(r, p)
 			if p.state == nil {
 				p.mu.Unlock()
@@ -130,6 +134,12 @@ outer:
 	if p.escTimeout != nil {
 		p.escTimeout.Stop()
 	}
+	// a timeout that has already fired must not send after the channel is
+	// closed
+	p.mu.Lock()
+	p.escPending = false
+	p.state = nil
+	p.mu.Unlock()
 	p.emit(EOF{})
 	close(p.sequences)
 	p.closed <- true
@@ -469,12 +479,19 @@ func anywhere(r rune, p *Parser) stateFn {
 			p.exit = nil
 		}
 		p.clear()
+		p.escPending = true
 		p.escTimeout = time.AfterFunc(10*time.Millisecond, func() {
-			p.emit(C0(0x1B))
 			p.mu.Lock()
+			defer p.mu.Unlock()
+			if !p.escPending || p.state == nil {
+				// the ESC has been followed by a rune, or the
+				// parser has finished, in the meantime
+				return
+			}
+			p.escPending = false
+			p.emit(C0(0x1B))
 			p.state = ground
 			p.ignoreST = false
-			p.mu.Unlock()
 		})
 		return escape
 	default:
